@@ -150,15 +150,16 @@ Proof.
 Qed.
 
 (* ---- TCP, UDP, ICMP, GRE ---- *)
-Lemma tcp_contract base m sp dp fl rest :
-  sp < 65536 -> dp < 65536 ->
-  run_parser [] PTCP base m (enc_l4 (L4TCP sp dp fl) ++ rest) =
+Lemma tcp_contract base m sp dp fl ow rest :
+  sp < 65536 -> dp < 65536 -> ow <= 10 ->
+  run_parser [] PTCP base m (enc_l4 (L4TCP sp dp fl ow) ++ rest) =
   Ok ((if base then assign [(cSrcPort, VI sp); (cDstPort, VI dp); (cTcpFlags, VI fl)] else (fun x => x)) (add_layer m PTCP),
-      20, PNone).
+      20 + 4 * ow, PNone).
 Proof.
-  intros Hs Hd. unfold enc_l4. rewrite !enc_be_2, !enc_be_4. cbn [run_parser]. subs.
+  intros Hs Hd Ho. unfold enc_l4. rewrite !enc_be_2, !enc_be_4. rewrite <- !app_assoc. cbn [run_parser]. subs.
   rewrite !be2 by assumption. unfold next_port. cbn [find].
-  change (80 / 16 * 4 <? 20) with false. change (80 / 16 * 4) with 20.
+  replace (16 * (5 + ow) / 16 * 4) with (20 + 4 * ow) by lia.
+  replace (20 + 4 * ow <? 20) with false by lia.
   destruct base; reflexivity.
 Qed.
 
